@@ -1,10 +1,17 @@
 import SdJwt.Lemmas.YamlL
+import SdJwt.Lemmas.YamlParse
 /-!
 # C15 — YAML claims with `!sd` tags mean the same as JSON claims plus those paths
 
 Statement: parsing YAML claims yields the same JSON claims as the document without its tags, and
 exactly one path per `!sd`-tagged node — the JSON pointer of that node — ordered so that issuing
 with them succeeds; no tagged node is silently ignored and no untagged node is reported.
+
+`C15_parse` and `C15_paths` are the general statement: for *every* marked claims tree a YAML
+document can express (tags on keys at any depth — inside sequences, below other tagged keys, in
+single-entry mappings — and on string sequence items), parsing the annotated document `T.toY`
+returns the tree's plain claims and a path list that is, as a multiset, exactly the JSON pointers
+of the marked nodes, nested ones first.  The remaining theorems are the local rules.
 
 The model starts at the parsed YAML value (`serde_yaml::Value`; YAML text → value is trusted and
 exercised by the generated documents only).
@@ -44,3 +51,26 @@ theorem C15_tagged_item (s : String) :
     yamlToJson.mapToJson, yamlToJson.seqToJson, Assoc.ofList, Assoc.ains, joinPath, Path.escapeSeg,
     Path.escapeL]
   decide
+
+/-- **C15, general (claims and order).** Parsing the document that annotates the marked tree `T`
+with `!sd` tags returns `T`'s plain claims — the document without its tags — and the path list
+`T.ypaths []`: for each tagged key the paths below it first, then its own. -/
+theorem C15_parse (T : MJ) (wf : T.WF) (hy : T.YamlOK) :
+    parseYaml T.toY = .ok (T.plain, T.ypaths []) := parseYaml_toY T wf hy
+
+/-- **C15, general (exactly the tagged nodes).** The reported path list is a permutation of the
+JSON pointers (`format_path`, RFC 6901 escaping) of the marked nodes of `T`: one path per tagged
+node, none for an untagged one. -/
+theorem C15_paths (T : MJ) (hy : T.YamlOK) :
+    (T.ypaths []).Perm ((T.paths "").map (·.1)) := by
+  simpa [joinPath] using MJ.ypaths_perm T [] hy
+
+/-- non-vacuity: a tagged key below a tagged key, inside a sequence, next to a tagged item -/
+example :
+    let T : MJ := .obj (.clear "l" (.arr (.clear (.obj (.marked "a/b" "d1"
+                        (.obj (.marked "c" "d2" (.leaf (.str "x")) .nil) (some ["d2"])) .nil) (some ["d1"]))
+                      (.marked "d3" (.leaf (.str "s")) .nil))) .nil) none
+    T.WF ∧ T.YamlOK ∧ T.ypaths [] = ["/l/0/a~1b/c", "/l/0/a~1b", "/l/1"] := by
+  refine ⟨?_, ?_, by decide⟩
+  · simp [MJ.WF, MMems.WF, MElems.WF, MMems.keysGt, MMems.marks, J.scalar]
+  · simp [MJ.YamlOK, MMems.YamlOK, MElems.YamlOK, J.scalar]
